@@ -1,6 +1,7 @@
 package main
 
 import (
+	"fmt"
 	"math"
 	"reflect"
 	"regexp"
@@ -17,7 +18,10 @@ import (
 //   case  (c12 ENV SCHEMA (coll B) (calls OP...))        OP ::= (u V) | (v V) | (s V) | (c V) | (cs SCHEMA2)
 //         (cs SCHEMA2): ValidateCompatibility with a SCHEMA as argument, built afresh for every evaluation; its
 //         outcome class is projected to `t` (the verdict itself is C15's business), the purity flags are not.
-//   obs   (r (coll B) (CLS same|differs kept|mutated)... (state same|changed) (after same|differs))
+//   obs   (r (coll B) (CLS same|differs kept|mutated)... (state same|changed) (after same|differs) (desc same|changed))
+//         desc: the self-description of the instance (every property's flags, default text and rule lists in the order the
+//         schema holds them; SelfSerialize of a scope) after EVERY call of the history, failing ones included, and of a
+//         fresh instance, compared with the one taken before the first call
 //
 // Every call of the history is evaluated c12Reps times on ONE schema instance, each time on a FRESHLY
 // BUILT argument (new Go maps: the runtime re-randomises their iteration order, and the schema's own
@@ -81,6 +85,43 @@ func c12Objects(t schema.Type, seen map[*schema.ObjectSchema]bool, out *[]*schem
 			c12Objects(m, seen, out)
 		}
 	}
+}
+
+// c12Desc: the self-description of an instance: of every object it contains, every property with its flags, its
+// default text and its rule lists IN THE ORDER THE SCHEMA HOLDS THEM (what SelfSerialize prints); for a scope
+// SelfSerialize itself as well.
+func c12Desc(t schema.Type) (res string) {
+	defer func() {
+		if r := recover(); r != nil {
+			res = "panic"
+		}
+	}()
+	var objs []*schema.ObjectSchema
+	c12Objects(t, map[*schema.ObjectSchema]bool{}, &objs)
+	var lines []string
+	for _, o := range objs {
+		var ps []string
+		for name, p := range o.PropertiesValue {
+			d := "-"
+			if p.Default() != nil {
+				d = *p.Default()
+			}
+			ps = append(ps, fmt.Sprintf("%s:%s req=%v if=%q ifnot=%q confl=%q dflt=%s ex=%q dis=%v", name, p.TypeID(), p.Required(),
+				p.RequiredIf(), p.RequiredIfNot(), p.Conflicts(), d, p.Examples(), p.Disabled))
+		}
+		sort.Strings(ps)
+		lines = append(lines, o.ID()+"{"+strings.Join(ps, ";")+"}")
+	}
+	sort.Strings(lines)
+	res = strings.Join(lines, "\n")
+	if sc, ok := t.(*schema.ScopeSchema); ok {
+		if d, err := sc.SelfSerialize(); err == nil {
+			res += "\nself=" + c12Canon(d)
+		} else {
+			res += "\nself=err"
+		}
+	}
+	return res
 }
 
 // c12State: the observable state of an instance: id and decoded defaults of every object, sorted.
@@ -165,6 +206,7 @@ func c12Eval(s schema.Type, o *sx.Node) (res string, kept bool) {
 func c12RunHistory(mk func() schema.Type, calls []*sx.Node, probes []*sx.Node, classOf func(string) *sx.Node, mkLit func() schema.Type) []*sx.Node {
 	s := mk()
 	state0 := c12State(s)
+	desc0, desc := c12Desc(s), "same"
 	var out []*sx.Node
 	unstable := map[string]bool{} // calls whose own repetitions disagreed: nothing to compare later
 	for _, o := range calls {
@@ -197,8 +239,15 @@ func c12RunHistory(mk func() schema.Type, calls []*sx.Node, probes []*sx.Node, c
 			n.Append(sx.A("mutated"))
 		}
 		out = append(out, n)
+		// the self-description after EVERY call of the history (failing ones included)
+		if desc == "same" && c12Desc(s) != desc0 {
+			desc = "changed"
+		}
 	}
 	fresh := mk()
+	if c12Desc(fresh) != desc0 {
+		desc = "changed"
+	}
 	st := "same"
 	if c12State(s) != state0 || c12State(s) != c12State(fresh) {
 		st = "changed"
@@ -243,6 +292,11 @@ func c12RunHistory(mk func() schema.Type, calls []*sx.Node, probes []*sx.Node, c
 		}
 	}
 	out = append(out, sx.L(sx.A("after"), sx.A(after)))
+	// ... and after the probes (the empty map leaves every property unset: the rejections of the presence rules)
+	if c12Desc(s) != desc0 || c12Desc(fresh) != desc0 {
+		desc = "changed"
+	}
+	out = append(out, sx.L(sx.A("desc"), sx.A(desc)))
 	return out
 }
 
@@ -288,6 +342,29 @@ func c12Collides(v *sx.Node) bool {
 		}
 	}
 	return false
+}
+
+// c12MemberProbes: for every object-typed property of the root object (inline objects; one more level below them),
+// the input that SUPPLIES that member as the empty map - what it then receives are the member object's own defaults,
+// which an earlier call that omitted the member must not have changed.
+func c12MemberProbes(root *sx.Node) []*sx.Node {
+	var out []*sx.Node
+	if root.Head() != "object" {
+		return nil
+	}
+	for _, p := range root.List[3].List {
+		t := p.List[1].List[1]
+		if t.Head() != "object" {
+			continue
+		}
+		out = append(out, op("u", vM(tAnyMap, vS(p.List[0].Str), vM(tAnyMap))))
+		for _, q := range t.List[3].List {
+			if q.List[1].List[1].Head() == "object" {
+				out = append(out, op("u", vM(tAnyMap, vS(p.List[0].Str), vM(tAnyMap, vS(q.List[0].Str), vM(tAnyMap)))))
+			}
+		}
+	}
+	return out
 }
 
 func c12Case(sc c04Schema, calls []*sx.Node) *sx.Node {
@@ -755,6 +832,30 @@ func init() {
 					emit(c12Case(sc, c12History(r, sc, 1+r.Intn(12))))
 				}
 			}
+			// objects of 3..5 properties whose rule lists (required_if / required_if_not / conflicts) name up to three
+			// properties in ANY order, with histories that contain the empty map (every property unset: the rejections
+			// of the presence rules), bare and below a list
+			nRules := 40
+			if tier == "thorough" {
+				nRules = 600
+			}
+			for i := 0; i < nRules; i++ {
+				g := &sgen{r: r, multiRules: true}
+				s := dObject("rules", false, g.props(1, 3+r.Intn(3), propNames)...)
+				if r.Chance(25) {
+					s = dObject("outer", false, pr("in", s), pr("k", dInt(nil, nil, nil)))
+				}
+				if c04InlineCycle(s, nil) {
+					continue
+				}
+				sc := c04Schema{s: s}
+				calls := c12History(r, sc, 1+r.Intn(6))
+				calls = append(calls, op("u", vM(tAnyMap)), op("c", vM(tStrMap)))
+				if s.List[1].Str == "outer" {
+					calls = append(calls, op("u", vM(tAnyMap, vS("in"), vM(tAnyMap))))
+				}
+				emit(c12Case(sc, calls))
+			}
 		}),
 		Run: func(p *sx.Node) *sx.Node {
 			mk := func() schema.Type { return buildWithEnv(p.List[1], p.List[2]) }
@@ -827,9 +928,12 @@ func init() {
 			if tier == "thorough" {
 				nx = 900
 			}
-			xnames := []string{"XInner", "XTwo", "XScalars", "XPtrs", "XNested", "XDeep", "XColl", "XEmbedded", "XEmbPtr", "XEmbPtr", "XLoose"}
+			xnames := []string{"XInner", "XTwo", "XScalars", "XPtrs", "XNested", "XDeep", "XColl", "XEmbedded", "XEmbPtr", "XEmbPtr", "XLoose",
+				"XMid", "XNested", "XDeep", "XMid", "XHold", "XRec"}
 			for i := 0; i < nx; i++ {
-				g := &xgen{r: r}
+				// rich (every other case): most member properties have defaults, half of the object-typed properties declare a
+				// (partial) object default - the sub-object default propagation has something to merge at every level
+				g := &xgen{r: r, rich: i%2 == 1}
 				name := xnames[i%len(xnames)]
 				ptr := r.Bool()
 				s := g.object("Root", ptr, name)
@@ -843,6 +947,9 @@ func init() {
 					l.Append(op("u", raw))
 					if r.Chance(40) {
 						l.Append(op(pick(r, []string{"u", "c"}), mutate(r, raw)))
+					}
+					if r.Chance(40) {
+						l.Append(op("u", vM(tAnyMap))) // omits every member: fills every default, at every level
 					}
 				}
 				for j := 0; j < 4; j++ {
@@ -875,6 +982,9 @@ func init() {
 				return sx.L(sx.A("bad"), sx.S("unknown struct schema"))
 			}
 			probes := []*sx.Node{op("u", vM(tAnyMap)), op("u", vM(tStrMap, vS("n"), vI("i64", 2))), op("u", vNil())}
+			if p.List[1].IsList() {
+				probes = append(probes, c12MemberProbes(eraseX(p.List[1].List[2]))...)
+			}
 			res := sx.L(sx.A("r"))
 			res.Append(c12RunHistory(mk, p.List[2].List[1:], probes, func(c string) *sx.Node {
 				if c == "ok" || c == "err" {
